@@ -685,6 +685,11 @@ outerLoop:
 				isOpen := value.Open
 				insert := value.Insert && quoteStyle.Tag != pr.None
 				if !isOpen {
+					if quoteDepth[0] == 0 {
+						// "A close-quote that would make the depth negative is in error and is
+						// ignored: the depth stays at 0 and no quote mark is rendered" (CSS 2.1 12.3.2)
+						insert = false
+					}
 					quoteDepth[0] = utils.MaxInt(0, quoteDepth[0]-1)
 				}
 				if insert {
